@@ -329,6 +329,17 @@ def plan(plan, tier, seed):
         verus_unit(plan)
     except AnchorLost as e:
         plan.anchor_errors.append(("C06.emitters", str(e)))
+    # ---- the loader side: the instruction loop of Interpreter::run_program
+    from units import vC06r
+    nr = "C06.verus.run_program.plan_rebuilt_in_emitter_order"
+    plan.ob(nr, "verus", "proved", functions=["src/interpreter/src/interpreter.rs: Interpreter::run_program (the instruction loop)"],
+            what="for every emitted program (register operands below the register count, constant ids below the constant count, no Ret): the loop cannot panic (index obligations), ConstLoad copies constant const_id into register dst, and every other instruction appends to the plan the function registered under its id applied to (output register, operand registers in the order the instruction lists them) -- the order the emitters write (C06.emitter.*); instructions run in order, an unknown function id or a factory error is an error")
+    try:
+        plan.verus.append(vlib.VerusUnit("c06_run", vC06r.unit(vlib.read_repo(vC06r.PATH)), {"run_instructions": nr}, ["canary_c06_run"]))
+    except AnchorLost as e:
+        plan.anchor_errors.append((nr, str(e)))
+    plan.dropped.append(vC06r.__doc__.strip())
+    plan.assumptions.append("run_program loop: a factory is an opaque value and applying it yields an opaque function object build(factory, arity, arguments); Value::clone is the identity on identities; the emitted-program precondition (operands < reg_count, const ids < constant count, no Ret) is what CompileCtx guarantees (register allocator contract: C06.ctx.*) -- the two are not composed mechanically; a hostile file violating it makes the loop index out of bounds (outside C06: the property speaks of compiled programs)")
     with open(os.path.join(VERIF, "contracts", "C06", "kani_constants.rs")) as f:
         text = f.read()
     plan.harness_files[os.path.join(GEN, "C06", "kani_constants.rs")] = text
